@@ -395,4 +395,125 @@ theorem mtm_call {Q : (d : Nat) → MTree r d → Prop} (T addr d : Nat) (m1 : M
 
 end call
 
+/-! ### the numeric side conditions from the provider invariant `MQ` -/
+
+section numeric
+variable {r : Nat} {T : Nat} {D : DigestFn (r + 1)}
+
+/-- what the side conditions need of ONE child (from `MQ`): a data slab is in WP10's working state `MDataWork`, its
+    `uint` fields are in range, its header size is exact (non-root prefix); an index slab has exact size, at least one
+    child, a `uint32` size -/
+def mtm_CW (T : Nat) : (d : Nat) → MTree r d → Prop
+  | 0, (s : MDataSlab r) =>
+    MDataWork T s ∧ mr_HFit s.elems ∧ s.hdr.size = Gen.mapDataSlabPrefixSize + s.elems.size ∧ s.elems.level = 0
+  | d + 1, (m : MMetaSlab (MTree r d)) =>
+    m.hdr.size = 12 + 18 * m.childHdrs.length ∧ 1 ≤ m.childHdrs.length ∧ m.hdr.size < 2^32
+
+theorem mtm_CW_of_MQ (hT : legalThreshold T = true) : ∀ (d : Nat) (t : MTree r d), MQ T D d t → mtm_CW T d t
+  | 0, t, h => by
+    have hl : MDataLoose T D false (t : MDataSlab r) := h.1
+    have hinv := hl.elems_inv
+    simp only [ElemsInv] at hinv
+    have hlv := hinv.2.1
+    have hlen := hinv.2.2.1
+    have hsz := hinv.2.2.2.2.1
+    have hse := hl.size_eq
+    rw [hl.prefix_nontop] at hse
+    have hb : (MDataSlab.hdr t).size ≤ maxThr T + (maxEntry T + 16) := h.2.1
+    have hme := maxEntry_eq hT
+    have hbd := map_legal_bounds hT
+    have hfit := thresholds_fit hT
+    have hmx : maxThr T = 3 * T / 2 := rfl
+    simp only [Gen.mapDataSlabPrefixSize] at hse
+    have hsle : (MDataSlab.elems t).size ≤ 2 * maxThr T := by omega
+    refine ⟨⟨hlen, hsz, by rw [hlv]; decide, hsle⟩, ⟨by omega, by rw [hlv]; decide, h.2.2⟩, hse, hlv⟩
+  | d + 1, t, h => by
+    have hl : MetaLoose T D d false (t : MMetaSlab (MTree r d)) := h.1.1
+    have h1 : 1 ≤ (MMetaSlab.children t).length := h.1.2
+    have hh := hl.2.1
+    have hs := hl.2.2.1
+    have hb : (MMetaSlab.hdr t).size ≤ maxThr T + 18 := h.2.1
+    have hfit := thresholds_fit hT
+    have hlen : (MMetaSlab.childHdrs t).length = (MMetaSlab.children t).length := by rw [hh, List.length_map]
+    simp only [Gen.mapMetaDataSlabPrefixSize, Gen.mapSlabHeaderSize] at hs
+    exact ⟨by rw [hlen]; exact hs, by rw [hlen]; exact h1, by omega⟩
+
+theorem mtm_CW_size (hT : legalThreshold T = true) : ∀ (d : Nat) (t : MTree r d), mtm_CW T d t →
+    (MTree.hdr d t).size < 2^32
+  | 0, t, h => by
+    have h1 := (msafe_work_fits hT h.1).1
+    have h2 := h.2.2.1
+    simp only [Gen.mapDataSlabPrefixSize] at h2
+    show (MDataSlab.hdr t).size < 2^32
+    omega
+  | _ + 1, _, h => h.2.2
+
+theorem mtm_CW_fit : ∀ (d : Nat) (t : MTree r d), mtm_CW T d t → mr_RootFit d t
+  | 0, _, h => h.2.1
+  | _ + 1, _, _ => trivial
+
+theorem mtm_MergeOK (hT : legalThreshold T = true) : ∀ (d : Nat) (l rr : MTree r d), mtm_CW T d l → mtm_CW T d rr →
+    msl_MergeOK d l rr
+  | 0, l, rr, hl, hr => by
+    have h1 := msafe_work_fits hT hl.1
+    have h2 := msafe_work_fits hT hr.1
+    exact ⟨h2.2.1, by omega⟩
+  | d + 1, l, rr, _, hr => by
+    show Gen.mapMetaDataSlabPrefixSize ≤ (MMetaSlab.hdr rr).size
+    have := hr.1
+    simp only [Gen.mapMetaDataSlabPrefixSize]; omega
+
+theorem mtm_meta_canLend {α : Type} (m : MMetaSlab α) (u : Nat) (h : MMetaSlab.canLend T m u = true) :
+    minThr T < m.hdr.size := by
+  simp only [MMetaSlab.canLend] at h
+  split at h
+  · have := of_decide_eq_true h; omega
+  · cases h
+
+theorem mtm_LendOK (hT : legalThreshold T = true) : ∀ (d : Nat) (l c : MTree r d) (u : Nat), mtm_CW T d l →
+    mtm_CW T d c → MTree.canLendToRight T d l u = true → MTree.isUnderflow T d c = some u → msl_LendOK T d l c
+  | 0, l, c, u, hl, hc, _, _ => by
+    have ht := thresholds_fit hT
+    have h1 := msafe_work_fits hT hl.1
+    have h2 := msafe_work_fits hT hc.1
+    exact ⟨ht.2.1, ht.2.2.2.2.2.1, hl.1.level_lt, hc.1.level_lt, by omega, h2.2.1, h1.2.2.2, hl.1.hkeys_len⟩
+  | d + 1, l, c, u, hl, hc, hcan, hun => by
+    have h1 := mtm_meta_canLend (l : MMetaSlab (MTree r d)) u hcan
+    have h2 : minThr T > (MMetaSlab.hdr c).size := by
+      have hun' : MMetaSlab.isUnderflow T (c : MMetaSlab (MTree r d)) = some u := hun
+      simp only [MMetaSlab.isUnderflow] at hun'
+      split at hun'
+      · assumption
+      · cases hun'
+    have e1 := hl.1
+    have e2 := hc.1
+    have e3 := hl.2.1
+    show (MMetaSlab.childHdrs c).length ≤ (MMetaSlab.childHdrs l).length + 1 ∧
+      0 < (MMetaSlab.childHdrs l).length + (MMetaSlab.childHdrs c).length
+    omega
+
+theorem mtm_BorrowOK (hT : legalThreshold T = true) : ∀ (d : Nat) (c rr : MTree r d) (u : Nat), mtm_CW T d c →
+    mtm_CW T d rr → MTree.canLendToLeft T d rr u = true → MTree.isUnderflow T d c = some u → msl_BorrowOK T d c rr
+  | 0, c, rr, u, hc, hr, _, _ => by
+    have ht := thresholds_fit hT
+    have h1 := msafe_work_fits hT hc.1
+    have h2 := msafe_work_fits hT hr.1
+    have hlen := hr.1.hkeys_len
+    exact ⟨ht.2.1, ht.2.2.2.2.2.1, hc.1.level_lt, hr.1.level_lt, by omega, h1.2.1, h2.2.2.2, by omega⟩
+  | d + 1, c, rr, u, hc, hr, hcan, hun => by
+    have h1 := mtm_meta_canLend (rr : MMetaSlab (MTree r d)) u hcan
+    have h2 : minThr T > (MMetaSlab.hdr c).size := by
+      have hun' : MMetaSlab.isUnderflow T (c : MMetaSlab (MTree r d)) = some u := hun
+      simp only [MMetaSlab.isUnderflow] at hun'
+      split at hun'
+      · assumption
+      · cases hun'
+    have e1 := hr.1
+    have e2 := hc.1
+    have e3 := hr.2.1
+    show (MMetaSlab.childHdrs c).length ≤ (MMetaSlab.childHdrs rr).length ∧ 0 < (MMetaSlab.childHdrs rr).length
+    omega
+
+end numeric
+
 end Atree.TransEq
